@@ -17,5 +17,5 @@ CONSTANTS
   History = TRUE
 CONSTRAINT SentQ
 INVARIANTS TypeOK Bound WasSent LruOK
-PROPERTY StepOK
+PROPERTIES ImplConforms ImplExtraOK
 CHECK_DEADLOCK FALSE
